@@ -21,7 +21,7 @@ CONSTANTS FileLen,      \* number of payload cells in the stream
           Ranges,       \* the (start, end) ranges clients may ask for
           MaxCalls, MaxFaults, MaxIntr,
           Variant       \* "code" | "insert_before_read" | "key_by_start" | "no_seek" | "read_not_exact"
-                        \*        | "no_length_guard" | "eager_read"
+                        \*        | "no_length_guard" | "eager_read" | "lazy_seek"
 
 File == [i \in 1..FileLen |-> (i * 37 + 5) % 251]
 Slice(s, e) == [i \in 1..(e - s) |-> File[s + i]]         \* bytes [s, e), needs e <= FileLen
@@ -31,6 +31,7 @@ VARIABLES cache,      \* (s,e) -> bytes
           cur,        \* range being loaded
           buf,        \* bytes read so far for cur
           pos,        \* reader cursor
+          bel,        \* where the parser believes the cursor is (only the "lazy_seek" design consults it)
           res,        \* result of the call in progress / last call
           faulted,    \* a hard fault was delivered during the current call
           nfaults, nintr, ncalls,
@@ -38,10 +39,10 @@ VARIABLES cache,      \* (s,e) -> bytes
           io,         \* ghost: offsets read during the current call
           hist        \* ghost: the behaviour so far, for replay on the implementation
 
-vars == <<cache, pc, cur, buf, pos, res, faulted, nfaults, nintr, ncalls, heapMax, io, hist>>
-view == <<cache, pc, cur, buf, pos, res, faulted, nfaults, nintr, ncalls, heapMax, io>>
+vars == <<cache, pc, cur, buf, pos, bel, res, faulted, nfaults, nintr, ncalls, heapMax, io, hist>>
+view == <<cache, pc, cur, buf, pos, bel, res, faulted, nfaults, nintr, ncalls, heapMax, io>>
 
-Init == /\ cache = [x \in {} |-> <<>>] /\ pc = "idle" /\ cur = <<0, 0>> /\ buf = <<>> /\ pos = 0
+Init == /\ cache = [x \in {} |-> <<>>] /\ pc = "idle" /\ cur = <<0, 0>> /\ buf = <<>> /\ pos = 0 /\ bel = 0
         /\ res = [ok |-> TRUE, data |-> <<>>] /\ faulted = FALSE /\ nfaults = 0 /\ nintr = 0 /\ ncalls = 0
         /\ heapMax = 0 /\ io = {} /\ hist = <<>>
 
@@ -59,17 +60,19 @@ Call(r) ==
     /\ IF Hit(r) THEN /\ res' = [ok |-> TRUE, data |-> HitData(r)] /\ pc' = "ret"              \* :711-713
        ELSE IF r[2] > FileLen /\ Variant # "no_length_guard"
             THEN /\ res' = [ok |-> FALSE, data |-> <<>>] /\ pc' = "ret"                          \* :716-719
-            ELSE /\ res' = res /\ pc' = "seek"
-    /\ UNCHANGED <<cache, pos, nfaults, nintr, ncalls>>
+            ELSE /\ res' = res
+                 \* the lazy-seek design skips the seek when it believes the cursor is already there
+                 /\ pc' = IF Variant = "lazy_seek" /\ bel = r[1] THEN "alloc" ELSE "seek"
+    /\ UNCHANGED <<cache, pos, bel, nfaults, nintr, ncalls>>
 
 SeekOk == /\ pc = "seek"
           /\ pos' = IF Variant = "no_seek" THEN pos ELSE cur[1]                                   \* :721
           /\ pc' = "alloc" /\ Step("seek_ok")
-          /\ UNCHANGED <<cache, cur, buf, res, faulted, nfaults, nintr, ncalls, heapMax, io>>
+          /\ UNCHANGED <<bel, cache, cur, buf, res, faulted, nfaults, nintr, ncalls, heapMax, io>>
 SeekFail == /\ pc = "seek" /\ nfaults < MaxFaults
             /\ nfaults' = nfaults + 1 /\ faulted' = TRUE
             /\ res' = [ok |-> FALSE, data |-> <<>>] /\ pc' = "ret" /\ Step("seek_fail")
-            /\ UNCHANGED <<cache, cur, buf, pos, nintr, ncalls, heapMax, io>>
+            /\ UNCHANGED <<bel, cache, cur, buf, pos, nintr, ncalls, heapMax, io>>
 
 Alloc == /\ pc = "alloc"
          /\ heapMax' = cur[2] - cur[1]                                                             \* :722 vec![0; len]
@@ -79,7 +82,7 @@ Alloc == /\ pc = "alloc"
                      ELSE cache
          /\ pc' = IF cur[2] = cur[1] THEN "insert" ELSE "read"
          /\ NoStep
-         /\ UNCHANGED <<cur, pos, res, faulted, nfaults, nintr, ncalls, io>>
+         /\ UNCHANGED <<bel, cur, pos, res, faulted, nfaults, nintr, ncalls, io>>
 
 Remaining == (cur[2] - cur[1]) - Len(buf)
 \* read_exact: the reader hands over k bytes, 1 <= k <= remaining (and no more than the stream holds)
@@ -90,39 +93,40 @@ ReadChunk(k) ==
     /\ pos' = pos + k
     /\ pc' = IF k = Remaining \/ Variant = "read_not_exact" THEN "insert" ELSE "read"
     /\ Step(k)
-    /\ UNCHANGED <<cache, cur, res, faulted, nfaults, nintr, ncalls, heapMax>>
+    /\ UNCHANGED <<bel, cache, cur, res, faulted, nfaults, nintr, ncalls, heapMax>>
 \* the eager design reads the rest of the stream along with the first chunk
 EagerRead ==
     /\ Variant = "eager_read" /\ pc = "read" /\ io = {} /\ Remaining >= 1 /\ pos + Remaining <= FileLen
     /\ buf' = buf \o Slice(pos, pos + Remaining)
     /\ io' = 1..FileLen
     /\ pos' = FileLen /\ pc' = "insert" /\ Step(Remaining)
-    /\ UNCHANGED <<cache, cur, res, faulted, nfaults, nintr, ncalls, heapMax>>
+    /\ UNCHANGED <<bel, cache, cur, res, faulted, nfaults, nintr, ncalls, heapMax>>
 ReadInterrupted ==                                   \* ErrorKind::Interrupted: read_exact retries
     /\ pc = "read" /\ nintr < MaxIntr
     /\ nintr' = nintr + 1 /\ Step("intr")
-    /\ UNCHANGED <<cache, pc, cur, buf, pos, res, faulted, nfaults, ncalls, heapMax, io>>
+    /\ UNCHANGED <<bel, cache, pc, cur, buf, pos, res, faulted, nfaults, ncalls, heapMax, io>>
 ReadErr ==
     /\ pc = "read" /\ nfaults < MaxFaults
     /\ nfaults' = nfaults + 1 /\ faulted' = TRUE
     /\ res' = [ok |-> FALSE, data |-> <<>>] /\ pc' = "ret" /\ Step("err")                         \* '?' on read_exact
-    /\ UNCHANGED <<cache, cur, buf, pos, nintr, ncalls, heapMax, io>>
+    /\ UNCHANGED <<bel, cache, cur, buf, pos, nintr, ncalls, heapMax, io>>
 ReadEof ==                                           \* Ok(0) before the range is complete -> UnexpectedEof
     /\ pc = "read" /\ (nfaults < MaxFaults \/ pos >= FileLen)
     /\ nfaults' = IF pos >= FileLen THEN nfaults ELSE nfaults + 1
     /\ faulted' = TRUE
     /\ res' = [ok |-> FALSE, data |-> <<>>] /\ pc' = "ret" /\ Step("eof")
-    /\ UNCHANGED <<cache, cur, buf, pos, nintr, ncalls, heapMax, io>>
+    /\ UNCHANGED <<bel, cache, cur, buf, pos, nintr, ncalls, heapMax, io>>
 
 Insert == /\ pc = "insert"
           /\ cache' = [k \in (DOMAIN cache) \cup {cur} |-> IF k = cur THEN buf ELSE cache[k]]     \* :724
           /\ res' = [ok |-> TRUE, data |-> buf] /\ pc' = "ret" /\ NoStep
+          /\ bel' = cur[2]                                                                         \* position after a complete read
           /\ UNCHANGED <<cur, buf, pos, faulted, nfaults, nintr, ncalls, heapMax, io>>
 
 Return == /\ pc = "ret"
           /\ ncalls' = ncalls + 1 /\ pc' = "idle"
           /\ hist' = [hist EXCEPT ![Len(hist)] = @ @@ [ok |-> res.ok, faulted |-> faulted]]
-          /\ UNCHANGED <<cache, cur, buf, pos, res, faulted, nfaults, nintr, heapMax, io>>
+          /\ UNCHANGED <<bel, cache, cur, buf, pos, res, faulted, nfaults, nintr, heapMax, io>>
 
 Next == \/ \E r \in Ranges : Call(r)
         \/ SeekOk \/ SeekFail \/ Alloc
